@@ -23,8 +23,8 @@
 (* Two layers.  The property-level layer (Strict = FALSE) fixes only what  *)
 (* the property statements need: outputs are written inside phases of the  *)
 (* file they belong to, no code output once the file has an error, a       *)
-(* failed I/O operation is followed by an error/fatal message before       *)
-(* anything else happens, exit status 0 iff no error was printed.  The     *)
+(* failed I/O operation is followed by an error/fatal message before the   *)
+(* process exits, exit status 0 iff no error was printed.  The             *)
 (* implementation-shaped layer (Strict = TRUE) adds the exact phase order  *)
 (* of compFileFront/Middle/Back, the phase in which each kind is written   *)
 (* and the early returns (compIsMoreAfterInclude/Syntax).  Both layers are *)
@@ -115,7 +115,9 @@ FileNeeds     == requested \ {"main"}
 Inc(n)        == IF n < MaxErrs THEN n + 1 ELSE n
 NoCodeOutput(f) == \A k \in CodeKinds : out[<<f, k>>] \in {"absent", "removed"}
 Alive         == exit = NoExit /\ ~dying
-Quiet         == Alive /\ pendingIo = NoPending     \* nothing waits to be reported
+\* An unreported I/O failure (pendingIo) does not block the driver from going on -- the statement of
+\* C18 is about the outcome: it blocks Exit until some error/fatal message has been issued.
+Quiet         == Alive
 LastFile      == IF "main" \in requested /\ ~printedError THEN MainFile ELSE nfiles
 
 TypeOK ==
@@ -229,7 +231,7 @@ CanOpen(f, k) ==
 \* The environment decides, at the latest when the operation happens, that the open, a
 \* write or the close of output (f,k) is going to fail.
 IoFault(f, k, m) ==
-    /\ m \in IoModes \ {"ok"}
+    /\ f >= 1 /\ m \in IoModes \ {"ok"}
     /\ io[<<f, k>>] = "ok" /\ nfaults < MaxFaults
     /\ CASE m = "failOpen"  -> CanOpen(f, k)
          [] m = "failWrite" -> Alive /\ out[<<f, k>>] = "open" /\ <<f, k>> \notin written
@@ -239,7 +241,7 @@ IoFault(f, k, m) ==
                     wfail, pendingIo, dying, postDone, exit >>
 
 OpenOut(f, k) ==
-    /\ CanOpen(f, k)
+    /\ f >= 1 /\ CanOpen(f, k)
     /\ IF io[<<f, k>>] = "failOpen"
        THEN \* nothing was created; the failure has to be reported
             /\ pendingIo' = <<f, k>>
@@ -251,7 +253,7 @@ OpenOut(f, k) ==
                     written, wfail, dying, postDone, exit >>
 
 WriteOut(f, k) ==
-    /\ Alive /\ out[<<f, k>>] = "open" /\ <<f, k>> \notin written
+    /\ f >= 1 /\ Alive /\ out[<<f, k>>] = "open" /\ <<f, k>> \notin written
     /\ written' = written \cup {<<f, k>>}
     /\ wfail' = IF io[<<f, k>>] = "failWrite" THEN wfail \cup {<<f, k>>} ELSE wfail
     /\ UNCHANGED << nfiles, post, requested, file, fstate, rank, phase, errs, printedError, out, io,
@@ -260,7 +262,7 @@ WriteOut(f, k) ==
 \* rc is what fclose returned.  The close fails when the environment said so; after a
 \* failed write the final flush may or may not fail as well.
 CloseOut(f, k, rc) ==
-    /\ Alive /\ out[<<f, k>>] = "open" /\ <<f, k>> \in written
+    /\ f >= 1 /\ Alive /\ out[<<f, k>>] = "open" /\ <<f, k>> \in written
     /\ rc \in {0, -1}
     /\ io[<<f, k>>] = "failClose" => rc # 0
     /\ io[<<f, k>>] = "ok" => rc = 0
@@ -301,12 +303,16 @@ Interp(ok) ==
     /\ "interp" \in post \ postDone /\ ("link" \in post => "link" \in postDone)
     /\ postDone' = postDone \cup {"interp"}
     /\ printedError' = ~ok /\ dying' = ~ok
+    /\ pendingIo' = IF ok THEN pendingIo ELSE NoPending
     /\ UNCHANGED << nfiles, post, requested, file, fstate, rank, phase, errs, out, io, nfaults, written,
-                    wfail, pendingIo, exit >>
+                    wfail, exit >>
 
+\* An I/O failure that no message has followed (pendingIo) rules out the successful exit only:
+\* the statement of C18 asks for an error report and a non-zero status, not for one report per failure.
 Exit(s) ==
-    /\ exit = NoExit /\ pendingIo = NoPending
+    /\ exit = NoExit
     /\ s \in {0, 1}
+    /\ pendingIo = NoPending \/ (printedError /\ s = 1)
     /\ \/ /\ dying /\ s = 1                                   \* exitFailure
        \/ /\ ~dying /\ AllFilesDone                           \* return from compFilesLoop
           /\ printedError \/ postDone = post
@@ -323,11 +329,11 @@ Next ==
     \/ \E p \in PhasesUsed : Phase(p)
     \/ \E m \in MsgKinds : Msg(m)
     \* streams are opened, written and closed for the current file only (CanOpen); emitCleanup walks all files
-    \/ file >= 1 /\ \E k \in requested :
-                            \/ OpenOut(file, k) \/ WriteOut(file, k)
-                            \/ \E rc \in {0, -1} : CloseOut(file, k, rc)
-                            \/ \E m \in IoModes \ {"ok"} : IoFault(file, k, m)
-    \/ \E o \in ReqOuts : Cleanup(o[1], o[2])
+    \/ \E k \in Kinds : OpenOut(file, k)
+    \/ \E k \in Kinds : WriteOut(file, k)
+    \/ \E k \in Kinds, rc \in {0, -1} : CloseOut(file, k, rc)
+    \/ \E k \in Kinds, m \in IoModes \ {"ok"} : IoFault(file, k, m)
+    \/ \E o \in AllOuts : Cleanup(o[1], o[2])
     \/ \E ok \in BOOLEAN : Link(ok) \/ Interp(ok)
     \/ \E s \in {0, 1} : Exit(s)
     \/ Terminated
@@ -354,8 +360,8 @@ FailureSurfaces == exit # NoExit =>
 \* nothing is left half way at a successful exit
 NothingOpenAtSuccess == exit = 0 => \A o \in AllOuts : out[o] \notin {"open", "partial"}
 
-\* an unreported failure blocks everything except its report
-PendingIsReported == pendingIo # NoPending => exit = NoExit
+\* an unreported failure rules out the successful exit
+PendingIsReported == pendingIo # NoPending => exit # 0
 
 \* C07: every behaviour ends in Exit (and the module has no Fault / Bug / Hang action)
 Total == <>(exit # NoExit)
